@@ -105,7 +105,60 @@ func c01Plan(tier string, seed uint64) (jobs []rt.Job) {
 	if tier == "thorough" {
 		add(real(16, 0, rng.Seed48()), "mixed", 400, map[string]interface{}{"maxsigs": 3000})
 	}
+	// every supported height, including those too tall to build: the constructors must get past their own guards
+	add(seam(30, 0, rng.Seed48()), "ctor-guards", 1, nil)
 	return
+}
+
+// c01CtorGuards: for every supported height 4..30 and hash function, each of the three constructors is started
+// under a leaf override that reports the first leaf request and then parks the calling goroutine for good. Reaching
+// the first leaf means the constructor accepted its parameters and began to build the tree; a refusal or fault
+// before that is a violation ("every supported height"). The verdict is decided by which of the two events
+// happens, not by a clock; the parked goroutines end with the job's process. Must be the only user of the seam
+// in its process (one job = one process).
+func c01CtorGuards(j *rt.Job, rng *rt.Rand, r *rt.Rec) {
+	type ev struct {
+		leaf bool
+		out  rt.Outcome
+	}
+	for h := 4; h <= 30; h += 2 {
+		for hf := 0; hf < 3; hf++ {
+			for _, ctor := range []string{"NewXMSSFromSeed", "NewXMSSFromExtendedSeed", "NewXMSSFromHeight"} {
+				ch := make(chan ev, 2)
+				xmss.VerifSetLeafOverride(func(leaf []uint8, idx uint32) {
+					ch <- ev{leaf: true}
+					select {} // park: the tree is never built
+				})
+				sd := rng.Seed48()
+				go func() {
+					out := rt.Call(func() {
+						switch ctor {
+						case "NewXMSSFromSeed":
+							xmss.NewXMSSFromSeed(sd, uint8(h), xmss.HashFunction(hf), 0)
+						case "NewXMSSFromExtendedSeed":
+							var ext [51]byte
+							ext[0], ext[1] = byte(hf), byte(h/2)
+							copy(ext[3:], sd[:])
+							xmss.NewXMSSFromExtendedSeed(ext)
+						case "NewXMSSFromHeight":
+							xmss.NewXMSSFromHeight(uint8(h), xmss.HashFunction(hf))
+						}
+					})
+					ch <- ev{out: out}
+				}()
+				e := <-ch
+				r.Eval(1)
+				r.Distinct("ctor", ctor, h, hf)
+				if !e.leaf {
+					r.Violate("C01/constructor-refuses-supported-height/"+ctor, fmt.Sprintf("%s for the supported height %d (%s) ended before requesting any leaf: %s", ctor, h, hashNames[hf], e.out),
+						jobCase(j), "the constructor starts building the tree", e.out.String())
+					return
+				}
+				r.Count("constructors_past_their_guards", 1)
+			}
+		}
+	}
+	r.Sample(map[string]interface{}{"heights": "4..30 even", "hash_functions": 3, "constructors": []string{"NewXMSSFromSeed", "NewXMSSFromExtendedSeed", "NewXMSSFromHeight"}, "event": "first leaf requested before any refusal"})
 }
 
 func flipBit(b []byte, bit int) []byte {
@@ -122,6 +175,10 @@ func c01Run(j *rt.Job, seed uint64, r *rt.Rec) {
 	n := uint32(1) << uint(c.H)
 	if mode == "tall-verify" {
 		c01TallVerify(c, j, rng, r)
+		return
+	}
+	if mode == "ctor-guards" {
+		c01CtorGuards(j, rng, r)
 		return
 	}
 	if c.Seam {
